@@ -56,6 +56,8 @@ def main():
             inpkg = (cands[pkgname.replace("_test", "")], tests)
 
         def rundemo():
+            if os.path.exists(os.path.join(demo, "run.sh")) and inpkg is None:
+                return sh("REPO=%s sh ./run.sh" % wt, cwd=demo)
             if inpkg is None:
                 return sh("go test -vet=off -count=1 ./...", cwd=demo)
             d, tests = inpkg
